@@ -122,8 +122,15 @@ def _run(ctx, prop, n_q, n_t, rule, gen_kw=None, case_kw=None, filt=None, varian
             s, kw = b()
             extra.append(drv_solve.solve_case(s, 10 ** 6 + len(extra), **kw))
         validate_cases(ctx, res, extra)
+    # every solve() table the repository's own test-suite produces (recorded from a scratch copy of /repo/tests)
+    import repotests
+    rt = repotests.for_checks()
+    if rt["solve_cases"]:
+        validate_cases(ctx, res, rt["solve_cases"])
+    res.extra["repository_suite"] = {"pytest": rt["pytest"], "solve_tables": len(rt["solve_cases"]),
+                                     "dropped_unmodelled": rt["dropped_unmodelled"]}
     res.assumptions = STD_ASSUME
-    return conclude(prop, ctx, res, rule=rule, clause_prefix=prefix)
+    return conclude(prop, ctx, res, rule=rule + "; plus every solve() table of the repository's own test-suite", clause_prefix=prefix)
 
 
 def std_case_kw(rng, s):
